@@ -922,6 +922,123 @@ theorem iter_eq_map_propagate {V R : Type} (w : World V) (f : V → Int → R) (
   · simp [exec, hc]
   · rw [iter_result w f cross fuel s i a ls consume hF h hc]
 
+/-! ## interleaved iterations (generators created, then advanced with other calls in between)
+
+Which interleavings are safe in the current code: ALL of them, as long as no two orbit objects involved hold the same propagator
+OBJECT (`propOf` injective). That is the situation of every orbit the library itself hands out: `Orbit.copy()` copies the
+propagator, Kepler / J2 / NonePropagator return copies of the bound orbit, and every point yielded by `KeplerNum._iter` gets a
+propagator copy of its own (`orb.as_orbit(self.copy())` inside the loop: read from the AST, `num_points_own_propagator_matches`).
+NOT safe (the generator follows the orbit bound LAST, `Witness/C08.lean: interleaved_shared_propagator_retargeted`): generators of
+DIFFERENT orbit objects holding the SAME propagator object — a propagator assigned to two orbits by the user, or the points
+returned by the Clohessy–Wiltshire propagator (known finding C08-cw-points-share-propagator). -/
+
+/-- every generator still runs on the propagator of its receiver, that propagator is bound to the receiver, and the dates it has
+left are a tail of the dates a fresh iteration of the receiver yields -/
+def IInv (w : IWorld) (fuel : Nat) (s : ISt) : Prop :=
+  ∀ i I, s.its i = some I →
+    I.prop = w.propOf I.recv ∧ s.bound I.prop = some I.recv ∧ (∀ o, I.locked = some o → o = I.recv) ∧
+    (I.started = true → ∃ j, I.remaining = (iterDates w fuel I.recv I.args).dates.drop j)
+
+theorem iinv_init (w : IWorld) (fuel : Nat) : IInv w fuel {} := by
+  intro i I h; simp at h
+
+theorem advance_bound (w : IWorld) (fuel : Nat) (s : ISt) (it k : Nat) : (istep w fuel s (.advance it k)).1.bound = s.bound := by
+  simp only [istep]
+  cases s.its it <;> rfl
+
+theorem istep_inv (w : IWorld) (fuel : Nat) (hinj : Function.Injective w.propOf) (s : ISt) (op : IOp) (h : IInv w fuel s) :
+    IInv w fuel (istep w fuel s op).1 := by
+  cases op with
+  | create o a =>
+    intro i I hi
+    simp only [istep, setBound] at hi
+    by_cases hin : i = s.n
+    · simp only [hin, if_true, Option.some.injEq] at hi
+      subst hi
+      exact ⟨rfl, by simp [istep, setBound], by intro o' h'; simp at h', by intro h'; simp at h'⟩
+    · simp only [hin, if_false] at hi
+      obtain ⟨h1, h2, h3, h4⟩ := h i I hi
+      refine ⟨h1, ?_, h3, h4⟩
+      simp only [istep, setBound]
+      by_cases hp : I.prop = w.propOf o
+      · have : I.recv = o := hinj (h1 ▸ hp)
+        simp [hp, this]
+      · simp [hp, h2]
+  | propagate o d =>
+    intro i I hi
+    simp only [istep, setBound] at hi
+    obtain ⟨h1, h2, h3, h4⟩ := h i I hi
+    refine ⟨h1, ?_, h3, h4⟩
+    simp only [istep, setBound]
+    by_cases hp : I.prop = w.propOf o
+    · have : I.recv = o := hinj (h1 ▸ hp)
+      simp [hp, this]
+    · simp [hp, h2]
+  | advance it k =>
+    cases hit : s.its it with
+    | none => simpa [istep, hit] using h
+    | some I0 =>
+      obtain ⟨g1, g2, g3, g4⟩ := h it I0 hit
+      intro i I hi
+      rw [advance_bound]
+      simp only [istep, hit] at hi
+      by_cases hin : i = it
+      · simp only [hin, if_true, Option.some.injEq] at hi
+        subst hi
+        simp only [g2, Option.getD_some]
+        by_cases hst : I0.started = true
+        · obtain ⟨j, hj⟩ := g4 hst
+          simp only [hst, if_true]
+          exact ⟨g1, g2, g3, fun _ => ⟨j + k, by rw [hj, List.drop_drop]⟩⟩
+        · simp only [hst, Bool.false_eq_true, if_false]
+          refine ⟨g1, g2, ?_, fun _ => ⟨k, rfl⟩⟩
+          intro o ho
+          by_cases hk : w.kind = .num
+          · simp only [hk, if_true, Option.some.injEq] at ho; exact ho.symm
+          · simp [hk] at ho
+      · simp only [hin, if_false] at hi
+        exact h i I hi
+
+theorem irun_inv (w : IWorld) (fuel : Nat) (hinj : Function.Injective w.propOf) (ops : List IOp) :
+    ∀ s, IInv w fuel s → IInv w fuel (irun w fuel s ops) := by
+  induction ops with
+  | nil => intro s h; exact h
+  | cons op r ih => intro s h; exact ih _ (istep_inv w fuel hinj s op h)
+
+/-- **interleave_pure**: when every orbit object holds a propagator object of its own, then after ANY sequence of generator
+creations, partial advances and `propagate` calls on any of the orbits, advancing generator `it` by `k` returns the next `k` dates
+of what a fresh, uninterrupted iteration of ITS receiver with ITS arguments yields, every state lying on the receiver's
+trajectory — whatever was done with the other orbits (and with the same orbit) in between -/
+theorem interleave_pure (w : IWorld) (fuel : Nat) (hinj : Function.Injective w.propOf) (ops : List IOp) (it k : Nat) (I : Iterator)
+    (hI : (irun w fuel {} ops).its it = some I) :
+    ∃ j, (istep w fuel (irun w fuel {} ops) (.advance it k)).2.1
+      = (((iterDates w fuel I.recv I.args).dates.drop j).take k).map (fun d => (d, I.recv)) := by
+  have hinv := irun_inv w fuel hinj ops {} (iinv_init w fuel)
+  obtain ⟨g1, g2, g3, g4⟩ := hinv it I hI
+  simp only [istep, hI, g2, Option.getD_some]
+  by_cases hst : I.started = true
+  · obtain ⟨j, hj⟩ := g4 hst
+    refine ⟨j, ?_⟩
+    simp only [hst, if_true, hj]
+    congr 1
+    funext d
+    cases hl : I.locked with
+    | none => rfl
+    | some o => simp [g3 o hl]
+  · refine ⟨0, ?_⟩
+    simp only [hst, Bool.false_eq_true, if_false, List.drop_zero]
+    congr 1
+    funext d
+    by_cases hk : w.kind = .num <;> simp [hk]
+
+-- two sibling points (epochs 60 and 180) with propagators of their own, walked side by side: each starts at its own epoch
+example :
+    let w : IWorld := { kind := .kepler, propOf := id, epoch := fun o => if o = 0 then 60 else 180 }
+    let a : Args := { stop := some (.delta 120), step := some (some 60) }
+    let s := irun w 10 {} [.create 0 a, .create 1 a, .advance 0 1, .advance 1 1]
+    (istep w 10 s (.advance 0 5)).2.1 = [(120, 0), (180, 0)] ∧ (istep w 10 s (.advance 1 5)).2.1 = [(240, 1), (300, 1)] := by
+  decide
+
 /-! ## ties to the source regenerated on every run -/
 
 def kindName : Kind → String
@@ -940,5 +1057,12 @@ theorem order_matches : ({ kind := .num, store := fun i _ => i, sameState := fun
 theorem step_test_matches : ({ kind := .num, store := fun i _ => i, sameState := fun _ _ => true, epoch := fun _ => 0 } : World Nat).stepIdent
     = Generated.numStepTestIsIdentity := by
   decide
+
+/-- every point yielded by `KeplerNum._iter` gets a propagator copy of its own: `self.copy()` is evaluated inside the loop -/
+theorem num_points_own_propagator_matches : Generated.numPointsOwnPropagator = true := by decide
+
+/-- `DateRange.__iter__` is a generator function and `DateRange` has no `__next__`: every consumer of a range object gets a
+cursor of its own (the model treats a `DateRange` as an immutable description) -/
+theorem date_range_iter_fresh_matches : Generated.dateRangeIterIsFreshGenerator = true := by decide
 
 end BeyondVerif.C08
